@@ -252,6 +252,9 @@ func WorkerDFS(name, arg string, b Bounds, shard, of int, deadline time.Time) *D
 	return d.st
 }
 
+// WorkerExe, when set, is the binary used for worker sub-processes (C33 uses the -race build).
+var WorkerExe string
+
 // RunDFS explores scenario name under bounds b on c.Workers processes and merges the result.
 func RunDFS(c *Ctx, name, arg string, b Bounds, budget time.Duration) *DFSStats {
 	deadline := time.Now().Add(budget)
@@ -263,6 +266,9 @@ func RunDFS(c *Ctx, name, arg string, b Bounds, budget time.Duration) *DFSStats 
 	var mu sync.Mutex
 	var wg sync.WaitGroup
 	exe, _ := os.Executable()
+	if WorkerExe != "" {
+		exe = WorkerExe
+	}
 	bj, _ := json.Marshal(b)
 	for i := 0; i < n; i++ {
 		wg.Add(1)
@@ -270,6 +276,11 @@ func RunDFS(c *Ctx, name, arg string, b Bounds, budget time.Duration) *DFSStats 
 			defer wg.Done()
 			cmd := exec.Command(exe, "worker-dfs", name, arg, string(bj), fmt.Sprint(i), fmt.Sprint(n), fmt.Sprint(deadline.UnixMilli()))
 			cmd.Env = append(os.Environ(), "GOMAXPROCS=2")
+			if WorkerExe != "" {
+				// race mode: every thread blocks in a raw read() holding its P until sysmon
+				// retakes it; enough Ps avoid waiting for that
+				cmd.Env = append(os.Environ(), "GOMAXPROCS=32")
+			}
 			cmd.Stderr = os.Stderr
 			out, err := cmd.Output()
 			var st DFSStats
